@@ -25,7 +25,7 @@ AddNode(w, c) == /\ phase = "build" /\ Len(tab.w) < MaxNodes
                  /\ UNCHANGED <<phase, rep, convs>>
 Seal == phase = "build" /\ Covers(tab) /\ phase' = "use" /\ UNCHANGED <<tab, rep, convs>>
 \* representation changes: identity on the table
-Convs == {"pickle", "table", "file", "file_cols", "units_nm_si", "units_cm", "scale3", "scale_third"}
+Convs == {"pickle", "table", "file", "file_cols", "file_units", "units_nm_si", "units_cm", "scale3", "scale_third"}
 Convert(k) == /\ phase = "use" /\ Len(convs) < MaxConv
               /\ convs' = Append(convs, k) /\ rep' = k
               /\ UNCHANGED <<tab, phase>>
